@@ -173,6 +173,20 @@ def run(ctx, ck) -> None:
         # M7 factories
         _factories(ck, pol, kind, L, tag, a)
     ck.floor('M1', nmat, 16, 'derived Mueller matrices (4 classes x 4 kinds)')
+    # M8: the rule implementations realise exactly these identities (chains agree before and after reduction) and leave
+    # their operands untouched
+    from ..rulesem import rule_info
+    from . import c01
+
+    rules = table.rules()
+    infos = {r.qual: rule_info(table, r) for r in rules}
+    sub = type(ck)(ck.pid)
+    c01._r_qu(sub, ctx, world, table, rules, infos)
+    c01._r_pure(sub, world, table, [r for r in rules if r.name in ('QURotationRule', 'QURotationHWPRule', 'LinearPolarizerHWPRule')])
+    for o in sub.obs:
+        o.rule = f'{ck.pid}.M8'
+        ck.obs.append(o)
+    ck.floor('M8', sum(1 for o in ck.obs if o.rule.endswith('M8')), 28, 'rule-case identities')
 
 
 def _call_create(pol: Polarimetry, cls: ClassInfo, angles: Any, stokes: str) -> Any:
